@@ -13,14 +13,17 @@ import os
 import random
 import subprocess
 
-from .. import c10_programs, core
+from .. import c10_programs, core, corpus
 
 LEVEL = "model_checking"
 
 
 def run_schedule(arg):
     idx, sched, progs = arg
-    job = {"sequence": [{"pid": pid, "src": progs[pid]["src"]} for pid in sched["pids"]]}
+    if "corpus" in sched:
+        job = {"corpus": sched["corpus"]}
+    else:
+        job = {"sequence": [{"pid": pid, "src": progs[pid]["src"]} for pid in sched["pids"]]}
     env = dict(os.environ, PYTHONHASHSEED=str(sched["hashseed"]), PYANALYZE_VERIF="1")
     r = subprocess.run(["/venv/bin/python", "-m", "harness.c10_worker"], input=json.dumps(job), capture_output=True,
                        text=True, cwd=str(core.VERIF), env=env, timeout=600)
@@ -60,6 +63,8 @@ def run(check: core.Check) -> None:
     for i, s in enumerate(scheds):
         pids = []
         for fam in s["seq"]:
+            if fam == "corpus":  # corpus programs are scheduled in their own shards below
+                continue
             k = rot.get(fam, 0)
             rot[fam] = k + 1
             pids.append(by_family[fam][k % len(by_family[fam])])
@@ -74,6 +79,22 @@ def run(check: core.Check) -> None:
             for b in pids:
                 if a != b:
                     jobs.append((len(jobs), {"hashseed": rnd.choice(hashseeds), "pids": [a, b]}, progs))
+    # the repository's own test snippets (harness/corpus.py): every shard is checked in two fresh processes with
+    # different hash seeds, once in corpus order and once reversed (different histories for every program), all
+    # programs of a process sharing one Checker per settings
+    items = corpus.harvest()
+    ids = [it["id"] for it in items]
+    rnd.shuffle(ids)
+    if quick:
+        ids = ids[:240]
+    shard = 15 if quick else 30
+    corpus_src = {"corpus:" + it["id"]: it["code"] for it in items}
+    for k in range(0, len(ids), shard):
+        part = ids[k : k + shard]
+        a, b = rnd.sample(hashseeds, 2)
+        jobs.append((len(jobs), {"hashseed": a, "corpus": part}, progs))
+        jobs.append((len(jobs), {"hashseed": b, "corpus": part[::-1]}, progs))
+    check.cov["corpus_programs"] = len(ids)
     results = core.pmap(run_schedule, jobs, chunk=1)
     obs = []
     texts: dict[str, dict[str, str]] = {}
@@ -85,7 +106,8 @@ def run(check: core.Check) -> None:
             body = json.dumps(r.get("render", r.get("raised")))
             dg = hashlib.blake2b(body.encode(), digest_size=8).hexdigest()
             texts.setdefault(r["pid"], {})[dg] = body
-            obs.append({"tid": tid, "event": "Check", "pid": r["pid"], "family": progs[r["pid"]]["family"], "digest": dg,
+            fam = "corpus" if r["pid"].startswith("corpus:") else progs[r["pid"]]["family"]
+            obs.append({"tid": tid, "event": "Check", "pid": r["pid"], "family": fam, "digest": dg,
                         "hashseed": sched["hashseed"], "raised": "raised" in r})
             tid += 1
     verdicts, stats = core.adjudicate("DeterminismTrace", "DeterminismTrace.cfg", obs, batch=10**9)
@@ -94,7 +116,8 @@ def run(check: core.Check) -> None:
     by_tid = {o["tid"]: o for o in obs}
     for t, vs in verdicts.items():
         o = by_tid[t]
-        payload = {"case": {"pid": o["pid"]}, "src": progs[o["pid"]]["src"], "renderings": texts[o["pid"]], "hashseed": o["hashseed"]}
+        src = corpus_src[o["pid"]] if o["pid"].startswith("corpus:") else progs[o["pid"]]["src"]
+        payload = {"case": {"pid": o["pid"]}, "src": src, "renderings": texts[o["pid"]], "hashseed": o["hashseed"]}
         for v in set(vs):
             if v.startswith("viol:"):
                 check.violation("program:" + o["pid"], v[5:], payload)
@@ -107,6 +130,11 @@ def run(check: core.Check) -> None:
             check.violation("raised:" + o["pid"], "CheckRaised", {"case": {"pid": o["pid"]}, "text": texts[o["pid"]]})
     for pid in progs:
         check.nontrivial(pid)
+    for o in obs:
+        if o["event"] == "Check" and o["pid"].startswith("corpus:") and texts[o["pid"]] and any(
+            t != "[]" for t in texts[o["pid"]].values()
+        ):
+            check.nontrivial(o["pid"])
     check.cov["rule"] = "schedules (hash seed x sequence of <=4 programs sharing one Checker) drawn by TLC simulation + every program twice in one process; non-trivial = distinct programs"
     check.cov["exhaustive"] = False
     check.cov["programs"] = len(progs)
@@ -117,6 +145,23 @@ def run(check: core.Check) -> None:
 def replay(check: core.Check, witness: dict) -> None:
     progs = c10_programs.programs()
     pid = witness["case"]["pid"]
+    if pid.startswith("corpus:"):
+        # a corpus program: alone under several seeds, and after / before its corpus neighbours
+        ids = [it["id"] for it in corpus.harvest()]
+        cid = pid[len("corpus:"):]
+        k = ids.index(cid) if cid in ids else 0
+        near = ids[max(0, k - 10) : k + 11]
+        scheds = [{"hashseed": hs, "corpus": [cid]} for hs in (0, 1, 2, 3)]
+        scheds += [{"hashseed": 5, "corpus": near}, {"hashseed": 6, "corpus": near[::-1]}]
+        seen = set()
+        for i, sc in enumerate(scheds):
+            out = run_schedule((i, sc, progs))
+            for r in out["results"]:
+                if r["pid"] == pid:
+                    seen.add(json.dumps(r.get("render", r.get("raised"))))
+        if len(seen) > 1:
+            check.violation("program:" + pid, "Deterministic", {"case": {"pid": pid}, "renderings": sorted(seen)})
+        return
     jobs = [(i, {"hashseed": hs, "pids": [pid]}, progs) for i, hs in enumerate([0, 1, 2, 3, 7, 11])]
     results = [run_schedule(j) for j in jobs]
     seen = {json.dumps(r["results"][0].get("render", r["results"][0].get("raised"))) for r in results}
